@@ -109,6 +109,10 @@ def _filter_problem(sx, fname) -> str:
                 ok = ok and (inside == g.pol)
             elif g.kind == 'hasattr':
                 continue
+            elif any('mating_role' in str(k) for k in g.key):
+                return (f'the efficiency product is filtered by the mating ROLE (`{g.show(sx.ctx)[:70]}`): a gear that is slave of one mating and master '
+                        f'of the next keeps its mating efficiency but carries the role of its LAST declaration, so an idler gear drops out '
+                        f'of eta_t')
             else:
                 return ''        # a filter on something else than the class: not decided here
         if not ok:
